@@ -184,7 +184,6 @@ func (c *client) PushBlobChunked(ctx context.Context, repo string, chunkSize int
 		ctx:       ctx,
 		client:    c,
 		chunkSize: chunkSizeFromResponse(resp, chunkSize),
-		chunk:     make([]byte, 0, chunkSize),
 		location:  location,
 	}, nil
 }
@@ -303,9 +302,9 @@ func (w *blobWriter) Write(buf []byte) (int, error) {
 			return 0, err
 		}
 	} else {
-		if w.chunk == nil {
-			w.chunk = make([]byte, 0, w.chunkSize)
-		}
+		// Note: the buffer grows as needed: the chunk size can come from
+		// the server (OCI-Chunk-Min-Length) so is not to be trusted as an
+		// allocation size.
 		w.chunk = append(w.chunk, buf...)
 	}
 	w.size += int64(len(buf))
